@@ -168,12 +168,11 @@ example : ∃ g, (buildFS c11NvFiles).files[2]? = some g ∧ 4 ≤ g.len ∧ g.p
 /-- the facts the model takes from the source (regenerated on every run) -/
 theorem c11_facts :
     Facts.fileSetFirstPos = 1 ∧ Facts.fileSetGap = 1 ∧ Facts.newFileOffset = 1 ∧
-    Facts.filePosition = "pos>f.len;f.lines==nil;i:=sort.Search(len(f.lines),func(iint)bool{returnf.lines[i]>pos})-1;Filename:f.filename;Line:i+1;Column:pos-f.lines[i]+1" ∧
-    Facts.fileSetPosition = "pos==0||int(pos)>=fs.pos;i:=sort.Search(len(fs.offset),func(iint)bool{returnfs.offset[i]>int(pos)})-1;return fs.files[i].Position(int(pos)-fs.offset[i])" ∧
-    Facts.fileSetLines = "{f.lines=[]int{0}foroffset,b:=rangef.data{ifb=='\\n'{f.lines=append(f.lines,offset+1)}}}" ∧
-    Facts.fileSetAdvance = "fs.pos+f.Len()+1" ∧
-    Facts.newFileData = "bytes.Replace(data,[]byte(\"\\r\\n\"),[]byte(\"\\n\"),-1)" ∧
-    Facts.filePos = "{returnparsley.Pos(f.offset+pos)}" :=
-  ⟨by decide, by decide, by decide, rfl, rfl, rfl, rfl, rfl, rfl⟩
+    Facts.newFileData = "bytes.Replace(data,[]byte(\"\\r\\n\"),[]byte(\"\\n\"),-1)" :=
+  ⟨by decide, by decide, by decide, rfl⟩
+
+/- (the texts of File.Position / setLines / Pos and of FileSet.AddFile / Position, formerly pinned here, are subsumed: the functions
+   are translated from the source on every run and proved equal to the model - Props/C11P.lean, Props/C10P.lean, built by this
+   property's check) -/
 
 end PV.Text
